@@ -78,6 +78,52 @@ def _layout_shard(shard, n, tier, seed, budget_s):
                                                       "case": {"src": src, "expected": want, "real": got}})
                         if len(rep["samples"]) < 1 and k == 3 and o == 1 and v:
                             rep["samples"].append({"fn": fn, "call": call, "expected": want})
+    # nested unpacking: (p0, .., [rest... | ...], .., qn) against tuples and lists of every length 0..5
+    def lit(kind, vals):
+        if kind == "list": return "[" + ", ".join(map(str, vals)) + "]"
+        return "()" if not vals else "(%s,)" % vals[0] if len(vals) == 1 else "(" + ", ".join(map(str, vals)) + ")"
+    for nb in range(3):
+        for na in range(3):
+            for ell in ("none", "id", "anon"):
+                if (ell != "none" and nb and na) or (ell == "none" and na):
+                    continue
+                for L in range(6):
+                    for kind in ("tuple", "list"):
+                        for outer in (0, 1):          # the unpacked parameter alone / between two plain parameters
+                            idx += 1
+                            if idx % n != shard:
+                                continue
+                            before = ["p%d" % i for i in range(nb)]; after = ["q%d" % i for i in range(na)]
+                            mid = [] if ell == "none" else ["rest..."] if ell == "id" else ["..."]
+                            names = before + (["rest"] if ell == "id" else []) + after
+                            if not names:
+                                continue
+                            pat = "(%s)" % ", ".join(before + mid + after)
+                            vals = list(range(10, 10 + L))
+                            if ell == "none":
+                                exp = [str(v) for v in vals] if L == nb else None
+                            elif L < nb + na:
+                                exp = None
+                            else:
+                                rest = vals[nb:L - na] if na else vals[nb:]
+                                exp = [str(v) for v in vals[:nb]] + ([lit(kind, rest).replace(",)", ")")] if ell == "id" else []) + ([str(v) for v in vals[L - na:]] if na else [])
+                            if outer:
+                                fn = "f = |x, %s, y| (x, %s, y)" % (pat, ", ".join(names))
+                                call = "f(1, %s, 2)" % lit(kind, vals)
+                                want = "#E" if exp is None else "(1, " + ", ".join(exp) + ", 2)"
+                            else:
+                                fn = "f = |%s| (%s,)" % (pat, ", ".join(names))
+                                call = "f(%s)" % lit(kind, vals)
+                                want = "#E" if exp is None else "(" + ", ".join(exp) + ")"
+                            src = "%s\nx = try\n  %s\ncatch _\n  '#E'\nprint(x)\n" % (fn, call)
+                            rr = w.exec(src, timeout=20, limit_ms=3000)
+                            rep["evaluations"] += 1; rep["layouts"] += 1; rep["distinct"] += 1
+                            rep["errors_expected"] += 1 if exp is None else 0
+                            c01._passengers(rep, rr, src)
+                            got = rr.get("stdout", "").rstrip("\n") if rr.get("outcome") == "ok" else "<%s: %s>" % (rr.get("outcome"), (rr.get("error") or "")[:80])
+                            if got != want:
+                                rep["violations"].append({"key": "nested-layout:%d:%d:%s:%d:%s:%d" % (nb, na, ell, L, kind, outer), "summary": "nested unpacking `%s` called as `%s`: expected %s, got %s" % (fn, call, want, got),
+                                                          "case": {"src": src, "expected": want, "real": got}})
     w.close()
     return rep
 
